@@ -64,8 +64,8 @@ AltsDecode ==
 EncIsAnAlt ==
   mode = "tree" => Enc(t) \in AltEncs(t)
 LenMinimal ==
-  mode = "len" => /\ LenOct(t) \in AltLen(t)
-                  /\ \A a \in AltLen(t) : Len(LenOct(t)) <= Len(a)
+  mode = "len" => /\ LenOct(t) \in AltLenAll(t)
+                  /\ \A a \in AltLenAll(t) : Len(LenOct(t)) <= Len(a)
                   /\ (t < 128 <=> Len(LenOct(t)) = 1)
 IntLaws ==
   mode = "int" => LET c == IntContent(t) IN
@@ -79,6 +79,6 @@ Emit ==
   ~EmitVectors \/
   CASE mode = "tree" -> PrintT(<<"VEC", ToJson([m |-> "tree", tree |-> t, enc |-> Enc(t), alts |-> AltEncs(t)])>>)
     [] mode = "int"  -> PrintT(<<"VEC", ToJson([m |-> "int", b8 |-> t, content |-> IntContent(t)])>>)
-    [] mode = "len"  -> PrintT(<<"VEC", ToJson([m |-> "len", n |-> t, hdr |-> Header(0, 4, TRUE, t), alts |-> AltLen(t)])>>)
+    [] mode = "len"  -> PrintT(<<"VEC", ToJson([m |-> "len", n |-> t, hdr |-> Header(0, 4, TRUE, t), alts |-> AltLenAll(t)])>>)
     [] mode = "bool" -> PrintT(<<"VEC", ToJson([m |-> "bool", b |-> t, content |-> BoolContent(t)])>>)
 =============================================================================
